@@ -115,6 +115,12 @@ def templates(tier, mode):
     # first failing entry decides the error
     out.append(('map-order', T('{ a = x : a , a = y : a }'), {'x': spec(['num'], (0,)), 'y': spec(['num', 'bool'], (0,))}))
     out.append(('map-order-err', T('{ 1 : 1 + x , y / 0 : 2 }'), {'x': spec(['num', 'str'], (0,), strshapes=[(1,)]), 'y': spec(['num', 'bool'], (0,))}))
+    # an element / entry / argument / statement that fails: the whole expression fails, nothing is dropped
+    out.append(('list-elem-err', T('[ 1 , x / y , 3 ]'), {'x': spec(['num', 'str'], (0,), strshapes=[(1,)]), 'y': spec(['num'], (0,))}))
+    out.append(('list-elem-err-in', T('7 in [ x << y , 7 ]'), {'x': spec(['i64'], (0,)), 'y': spec(['i64'], (0,))}))
+    out.append(('list-elem-unbound', T('AND [ x < nosuch , y ]'), {'x': spec(['num'], (0,)), 'y': spec(['bool'], (0,))}))
+    out.append(('call-arg-err', T('max ( 1 , x % y , 3 )'), {'x': spec(['num'], (0,)), 'y': spec(['num', 'bool'], (0,))}))
+    out.append(('chain-stmt-err', T('a = x / y ; 5'), {'x': spec(['num'], (0,)), 'y': spec(['num', 'none'], (0,))}))
     out.append(('list-order', T('[ a = x , a , a = y , a ]'), {'x': spec(['num'], (0,)), 'y': spec(['num', 'bool'], (0,))}))
     # nested forms
     out.append(('nest1', T('x + y * z'), {'x': num, 'y': nummul, 'z': nummul}))
